@@ -282,11 +282,16 @@ macro_rules! combine_impls {
                                                         }
                                                     }
                                                     Message::Data(data) => {
-                                                        let n_data = if vals
-                                                            .load()
-                                                            .$idx
-                                                            .is_none()
-                                                        {
+                                                        // publish the value before counting it:
+                                                        // whoever sees the count reach zero must
+                                                        // find every member's value in `vals`
+                                                        let first = vals.load().$idx.is_none();
+                                                        vals.rcu(move |vals| {
+                                                            let mut vals = (**vals).clone();
+                                                            vals.$idx = Some(data.clone());
+                                                            vals
+                                                        });
+                                                        let n_data = if first {
                                                             n_data.fetch_sub(
                                                                 1,
                                                                 AtomicOrdering::AcqRel,
@@ -296,11 +301,6 @@ macro_rules! combine_impls {
                                                                 AtomicOrdering::Acquire,
                                                             )
                                                         };
-                                                        vals.rcu(move |vals| {
-                                                            let mut vals = (**vals).clone();
-                                                            vals.$idx = Some(data.clone());
-                                                            vals
-                                                        });
                                                         if n_data == 0 {
                                                             call!(
                                                                 sink,
